@@ -74,7 +74,8 @@ def prot_program(seed, mode=None, size=4):
     return p, root, render(p, root), mode
 
 
-ERRVALS = ["str", "num", "nil", "true", "false", "table", "func", "emptystr", "numstr"]
+ERRVALS = ["str", "num", "nil", "true", "false", "table", "func", "emptystr", "numstr", "pct1", "pct2", "pct3", "pct4"]
+STRKINDS = ("str", "emptystr", "numstr", "pct1", "pct2", "pct3", "pct4")     # error values that are strings (messages must arrive byte for byte)
 
 
 def errval_program(kind, catcher, level, via, callstyle="plain"):
@@ -82,7 +83,8 @@ def errval_program(kind, catcher, level, via, callstyle="plain"):
     from a host function, caught by pcall / xpcall / nested"""
     p = Prog()
     val = {"str": lambda: p.str("msg"), "num": lambda: p.num(42), "nil": lambda: p.nil(), "true": lambda: p.true(), "false": lambda: p.false(),
-           "table": lambda: p.id("errtab"), "func": lambda: p.id("errfn"), "emptystr": lambda: p.str(""), "numstr": lambda: p.str("12")}[kind]
+           "table": lambda: p.id("errtab"), "func": lambda: p.id("errfn"), "emptystr": lambda: p.str(""), "numstr": lambda: p.str("12"),
+           "pct1": lambda: p.str("disk 100% full"), "pct2": lambda: p.str("%d %s %v"), "pct3": lambda: p.str("trailing %"), "pct4": lambda: p.str("%%")}[kind]
     ss = [p.local(["errtab", "errfn"], [p.table([("k", p.add("str", s=list(b"code"), name=True), p.num(7))]), p.func([], p.block([]))]),
           p.emit([p.id("errtab"), p.id("errfn")]),
           p.local(["x"], [p.num(1)])]
@@ -90,11 +92,11 @@ def errval_program(kind, catcher, level, via, callstyle="plain"):
         args = [val()] + ([p.num(level)] if level is not None else [])
         raiser = [p.assign([p.id("x")], [p.num(2)]), p.callstat(p.call(p.id("error"), args)), p.assign([p.id("x")], [p.num(3)])]
     elif via == "gerr":
-        raiser = [p.assign([p.id("x")], [p.num(2)]), p.callstat(p.call(p.id("gerr"), [p.str("host-msg")])), p.assign([p.id("x")], [p.num(3)])]
+        raiser = [p.assign([p.id("x")], [p.num(2)]), p.callstat(p.call(p.id("gerr"), [val() if kind in STRKINDS and kind != "str" else p.str("host-msg")])), p.assign([p.id("x")], [p.num(3)])]
     elif via == "gpanic":
-        raiser = [p.assign([p.id("x")], [p.num(2)]), p.callstat(p.call(p.id("gpanic"), [p.str("go-panic")])), p.assign([p.id("x")], [p.num(3)])]
+        raiser = [p.assign([p.id("x")], [p.num(2)]), p.callstat(p.call(p.id("gpanic"), [val() if kind in STRKINDS and kind != "str" else p.str("go-panic")])), p.assign([p.id("x")], [p.num(3)])]
     elif via == "assert":
-        raiser = [p.assign([p.id("x")], [p.num(2)]), p.callstat(p.call(p.id("assert"), [p.false()] + ([val()] if kind in ("str", "emptystr", "numstr") else []))), p.assign([p.id("x")], [p.num(3)])]
+        raiser = [p.assign([p.id("x")], [p.num(2)]), p.callstat(p.call(p.id("assert"), [p.false()] + ([val()] if kind in STRKINDS else []))), p.assign([p.id("x")], [p.num(3)])]
     ss.append(p.localfunction("thrower", p.func([], p.block(raiser))))
     # how the failing function is reached: the name the call site gives it feeds the stack trace
     ss.append(p.local(["holder"], [p.table([("k", p.str(""), p.id("thrower")), ("k", p.str("a b"), p.id("thrower")), ("k", p.add("str", s=list(b"m"), name=True), p.func(["self"], p.block([p.ret([p.call(p.id("thrower"), [])])])))])]))
@@ -141,4 +143,45 @@ def depth_program(target, catcher="pcall", raise_depth=3):
     ss = [p.localfunction("deeper", deeper), p.localfunction("rec", rec),
           p.emit([p.str("result"), p.call(p.id("rec"), [p.num(1)])]),
           p.emit([p.str("again"), p.call(p.id("pcall"), [p.id("rec"), p.num(1)])])]
+    return p, p.block(ss)
+
+
+def wraperr_program(raise_kind, resumer, catcher):
+    """an error escapes a coroutine.wrap function and is caught in its resumer; afterwards the resumer
+    still is who it was (running/status), the dead function stays dead, and other coroutines work"""
+    p = Prog()
+    co = lambda n: p.field(p.id("coroutine"), n)
+    fail = {"error": lambda: p.callstat(p.call(p.id("error"), [p.str("in-wrap")])),
+            "errtab": lambda: p.callstat(p.call(p.id("error"), [p.id("errtab")])),
+            "fault": lambda: p.local(["zz"], [p.bin("+", p.nil(), p.num(1))]),
+            "gerr": lambda: p.callstat(p.call(p.id("gerr"), [p.str("host")])),
+            "gpanic": lambda: p.callstat(p.call(p.id("gpanic"), [p.str("panic")])),
+            "after-yield": lambda: p.callstat(p.call(p.id("error"), [p.str("late")]))}[raise_kind]
+    body = [p.emit([p.str("w-start"), p.id("a")])]
+    if raise_kind == "after-yield":
+        body.append(p.callstat(p.call(co("yield"), [p.num(1)])))
+    body.append(fail())
+    ss = [p.local(["errtab"], [p.table([])]), p.emit([p.id("errtab")])]
+    h = p.func(["m"], p.block([p.emit([p.str("handler"), p.call(co("running"), []) if resumer == "main" else p.bin("==", p.call(co("running"), []), p.id("me"))]), p.ret([p.id("m")])]))
+    def caught(call):
+        return p.call(p.id("pcall"), [call[0]] + call[1]) if catcher == "pcall" else p.call(p.id("xpcall"), [p.func([], p.block([p.ret([p.call(call[0], call[1])])])), h])
+    drive = [p.local(["w"], [p.call(co("wrap"), [p.func(["a"], p.block(body))])])]
+    if raise_kind == "after-yield":
+        drive.append(p.emit([p.str("first"), p.call(p.id("w"), [p.num(7)])]))
+    drive += [p.emit([p.str("caught"), caught((p.id("w"), [p.num(8)]))]),
+              p.emit([p.str("who"), p.call(co("running"), []) if resumer == "main" else p.bin("==", p.call(co("running"), []), p.id("me")),
+                      p.call(co("status"), [p.id("me")]) if resumer != "main" else p.str("-")]),
+              p.emit([p.str("again"), p.call(p.id("pcall"), [p.id("w"), p.num(9)])]),
+              p.local(["c2"], [p.call(co("create"), [p.func(["x"], p.block([p.local(["y"], [p.call(co("yield"), [p.bin("+", p.id("x"), p.num(1))])]), p.ret([p.bin("*", p.id("y"), p.num(2))])]))])]),
+              p.emit([p.str("other"), p.call(co("resume"), [p.id("c2"), p.num(1)]), p.call(co("resume"), [p.id("c2"), p.num(5)]), p.call(co("status"), [p.id("c2")])])]
+    if resumer == "main":
+        ss += drive
+    else:
+        ss += [p.local(["me"], []),
+               p.assign([p.id("me")], [p.call(co("create"), [p.func([], p.block(drive + [p.local(["v"], [p.call(co("yield"), [p.str("mid")])]),
+                                                                                            p.emit([p.str("resumed"), p.id("v"), p.call(co("status"), [p.id("me")])]), p.ret([p.str("me-done")])]))])]),
+               p.emit([p.str("r1"), p.call(co("resume"), [p.id("me")])]),
+               p.emit([p.str("st"), p.call(co("status"), [p.id("me")]), p.call(co("running"), [])]),
+               p.emit([p.str("r2"), p.call(co("resume"), [p.id("me"), p.num(3)])]),
+               p.emit([p.str("st"), p.call(co("status"), [p.id("me")])])]
     return p, p.block(ss)
